@@ -17,11 +17,40 @@ def pool():
     return _POOL
 
 
+def _descendants(root):
+    kids = {}
+    for d in os.listdir("/proc"):
+        if d.isdigit():
+            try:
+                with open("/proc/%s/stat" % d) as f:
+                    parts = f.read().rsplit(")", 1)[1].split()
+                kids.setdefault(int(parts[1]), []).append(int(d))
+            except Exception:
+                pass
+    out, stack = [], [root]
+    while stack:
+        p = stack.pop()
+        for k in kids.get(p, []):
+            out.append(k)
+            stack.append(k)
+    return out
+
+
 def shutdown():
+    """terminate the solver workers, the fork server and the resource tracker (no orphans holding our stdout)"""
     global _POOL
+    import signal
     if _POOL is not None:
-        _POOL.shutdown(wait=False, cancel_futures=True)
+        try:
+            _POOL.shutdown(wait=False, cancel_futures=True)
+        except Exception:
+            pass
         _POOL = None
+    for pid in _descendants(os.getpid()):
+        try:
+            os.kill(pid, signal.SIGKILL)
+        except Exception:
+            pass
 
 
 def to_smt2(hyps, goal, negate_goal=True):
@@ -99,6 +128,32 @@ class Result:
             name, status, backend, time_, model, reason, ob
 
 
+class SerialOb:
+    """picklable obligation: SMT-LIB2 text instead of z3 ASTs (crosses process boundaries)"""
+    __slots__ = ("name", "kind", "func", "line", "note", "smt2", "smt2_qf")
+
+    def __init__(self, name, kind, func, line, note, smt2, smt2_qf=None):
+        self.name, self.kind, self.func, self.line, self.note = name, kind, func, line, note
+        self.smt2, self.smt2_qf = smt2, smt2_qf
+
+
+def serialize(ob):
+    if isinstance(ob, SerialOb):
+        return ob
+    qf = [h for h in ob.hyps if not has_quantifier(h)]
+    t1 = None
+    if len(qf) != len(ob.hyps) and not has_quantifier(ob.goal):
+        t1 = to_smt2(qf, ob.goal)
+    return SerialOb(ob.name, ob.kind, ob.func, ob.line, ob.note, to_smt2(ob.hyps, ob.goal), t1)
+
+
+def serialize_cover(named):
+    n, f = named
+    if isinstance(f, str):
+        return (n, f)
+    return (n, to_smt2([h for h in f if not has_quantifier(h)], None))
+
+
 def has_quantifier(e):
     seen = set()
     stack = [e]
@@ -119,20 +174,14 @@ def discharge(obligations, timeout_ms=20000, tactic=None, retry_ms=None, use_cvc
     hypotheses), sat there is only a candidate counter-model, so phase 2 re-checks with every hypothesis."""
     ex = pool()
     futs = []
-    texts = []
+    obligations = [serialize(ob) for ob in obligations]
     for ob in obligations:
-        qf = [h for h in ob.hyps if not has_quantifier(h)]
         tac = per_ob_tactic(ob) if per_ob_tactic else tactic
-        if len(qf) != len(ob.hyps) and not has_quantifier(ob.goal):
-            t1 = to_smt2(qf, ob.goal)
-            f1 = ex.submit(_solve, t1, timeout_ms, tac, True)
-        else:
-            f1 = None
-        txt = to_smt2(ob.hyps, ob.goal)
-        texts.append(txt)
-        futs.append((f1, txt, tac))
+        f1 = ex.submit(_solve, ob.smt2_qf, timeout_ms, tac, True) if ob.smt2_qf is not None else None
+        f2 = ex.submit(_solve, ob.smt2, timeout_ms, tac, True) if f1 is None else None
+        futs.append((f1, f2, ob.smt2, tac))
     results = []
-    for ob, (f1, txt, tac) in zip(obligations, futs):
+    for ob, (f1, f2, txt, tac) in zip(obligations, futs):
         model1 = None
         t_acc = 0.0
         if f1 is not None:
@@ -140,9 +189,9 @@ def discharge(obligations, timeout_ms=20000, tactic=None, retry_ms=None, use_cvc
             if r == "unsat":
                 results.append(Result(ob.name, "proved", "z3", t_acc, None, "", ob))
                 continue
-        # a candidate counter-model already exists: the full query (with quantified axioms) gets a short budget
-        r, model, t, reason = ex.submit(_solve, txt, min(timeout_ms, 10000) if model1 is not None else timeout_ms,
-                                        tac, True).result()
+            # a candidate counter-model already exists: the full query (with quantified clauses) gets a short budget
+            f2 = ex.submit(_solve, txt, min(timeout_ms, 10000) if model1 is not None else timeout_ms, tac, True)
+        r, model, t, reason = f2.result()
         t += t_acc
         if model is None:
             model = model1
@@ -166,6 +215,22 @@ def discharge(obligations, timeout_ms=20000, tactic=None, retry_ms=None, use_cvc
 def check_sat(named_formulas, timeout_ms=10000):
     """vacuity guards: every formula list must be satisfiable.  returns list of (name, 'sat'|'unsat'|'unknown')"""
     ex = pool()
-    futs = [(n, ex.submit(_solve, to_smt2([h for h in f if not has_quantifier(h)], None), timeout_ms, None, False))
-            for n, f in named_formulas]
+    named_formulas = [serialize_cover(c) for c in named_formulas]
+    futs = [(n, ex.submit(_solve, f, timeout_ms, None, False)) for n, f in named_formulas]
     return [(n, fu.result()[0]) for n, fu in futs]
+
+
+def run_tasks(tasks):
+    """tasks: list of (module, function, args) executed in the worker pool; results must be picklable"""
+    ex = pool()
+    futs = [ex.submit(_call, m, f, a) for (m, f, a) in tasks]
+    return [fu.result() for fu in futs]
+
+
+def _call(mod, fn, args):
+    import importlib, os, sys
+    here = os.path.dirname(os.path.dirname(os.path.abspath(__file__)))
+    if here not in sys.path:
+        sys.path.insert(0, here)
+    m = importlib.import_module(mod)
+    return getattr(m, fn)(*args)
